@@ -5,6 +5,7 @@ package main
 import (
 	"bufio"
 	"bytes"
+	"crypto/tls"
 	"encoding/json"
 	"errors"
 	"fmt"
@@ -20,6 +21,7 @@ import (
 
 	martian "github.com/google/martian/v3"
 	mlog "github.com/google/martian/v3/log"
+	"github.com/google/martian/v3/mitm"
 	"github.com/google/martian/v3/verifhook"
 
 	"verifharness/internal/tunx"
@@ -109,6 +111,9 @@ type attr struct {
 	Small  bool   `json:"small,omitempty"`       // small response body (fits the proxy's write buffer)
 	Big    bool   `json:"big,omitempty"`         // 2-4 MiB response body
 	SlowRd bool   `json:"slow_reader,omitempty"` // the client reads the response slowly (<=16 KiB per read, pauses)
+	MITM   bool   `json:"mitm,omitempty"`        // the exchange travels inside a CONNECT tunnel that the proxy upgrades to TLS (mitm.Config)
+	Second bool   `json:"second,omitempty"`      // MITM: a first exchange has already completed inside the tunnel
+	NoLen  bool   `json:"no_length,omitempty"`   // the origin's response has no length: it is delimited by the end of the connection
 }
 
 func (a attr) String() string {
@@ -133,6 +138,15 @@ func (a attr) String() string {
 	}
 	if a.SlowRd {
 		f = append(f, "slow-reader")
+	}
+	if a.MITM {
+		f = append(f, "mitm")
+	}
+	if a.Second {
+		f = append(f, "second-in-tunnel")
+	}
+	if a.NoLen {
+		f = append(f, "close-delimited")
 	}
 	if len(f) == 0 {
 		return "get"
@@ -168,6 +182,7 @@ type world struct {
 	bodyLen  map[int]int
 	reqBody  map[int]int  // request body length per exchange id
 	rtFail   map[int]bool // the round trip of this exchange fails
+	noLen    map[int]bool // the response of this exchange carries no length
 	stall    map[int]bool // the response body of this exchange stalls half way on gate (id, ptWriting)
 
 	closeReturned   int32
@@ -404,6 +419,7 @@ func (w *world) RoundTrip(req *http.Request) (*http.Response, error) {
 	want := w.reqBody[id]
 	fail := w.rtFail[id]
 	stall := w.stall[id]
+	nolen := w.noLen[id]
 	w.mu.Unlock()
 	// like a transport: send the request body upstream, i.e. read it from the client
 	if req.Body != nil && req.Body != http.NoBody {
@@ -442,8 +458,116 @@ func (w *world) RoundTrip(req *http.Request) (*http.Response, error) {
 		ContentLength: int64(n),
 		Request:       req,
 	}
+	if nolen {
+		res.ContentLength = -1 // the proxy has to delimit it by closing the connection
+	}
 	w.ev("rt-exit", id, false)
 	return res, nil
+}
+
+// ---------------------------------------------------------------------------
+// MITM'd tunnels: a TLS client that sees the record types it receives
+
+// sniffConn notes the content type of every TLS record read through it.
+type sniffConn struct {
+	net.Conn
+	mu   sync.Mutex
+	hdr  []byte
+	left int
+	last byte
+	recs int
+}
+
+func (s *sniffConn) Read(p []byte) (int, error) {
+	n, err := s.Conn.Read(p)
+	s.mu.Lock()
+	b := p[:n]
+	for len(b) > 0 {
+		if s.left > 0 {
+			k := s.left
+			if k > len(b) {
+				k = len(b)
+			}
+			s.left -= k
+			b = b[k:]
+			continue
+		}
+		s.hdr = append(s.hdr, b[0])
+		b = b[1:]
+		if len(s.hdr) == 5 {
+			s.last = s.hdr[0]
+			s.left = int(s.hdr[3])<<8 | int(s.hdr[4])
+			s.recs++
+			s.hdr = s.hdr[:0]
+		}
+	}
+	s.mu.Unlock()
+	return n, err
+}
+
+// lastRecord returns the content type of the last complete record header seen
+// (21 = alert, 23 = application data) and whether the stream stopped inside a record.
+func (s *sniffConn) lastRecord() (typ byte, torn bool) {
+	s.mu.Lock()
+	defer s.mu.Unlock()
+	return s.last, s.left > 0 || len(s.hdr) > 0
+}
+
+var (
+	mitmOnce sync.Once
+	mitmCfg  *mitm.Config
+	mitmErr  error
+)
+
+func mitmConfig() (*mitm.Config, error) {
+	mitmOnce.Do(func() {
+		ca, priv, err := mitm.NewAuthority("verif c07 CA", "verif", 24*time.Hour)
+		if err != nil {
+			mitmErr = err
+			return
+		}
+		mitmCfg, mitmErr = mitm.NewConfig(ca, priv)
+	})
+	return mitmCfg, mitmErr
+}
+
+// openTunnel sends CONNECT on c, expects 200 and runs the TLS handshake with the
+// proxy's forged certificate; afterwards c.conn is the TLS connection.
+func (w *world) openTunnel(c *cconn) bool {
+	raw := c.conn
+	cid := 400 + c.id
+	raw.Write([]byte("CONNECT origin.c07.example:443 HTTP/1.1\r\nHost: origin.c07.example:443\r\nX-Conn: " + strconv.Itoa(cid) + "\r\n\r\n"))
+	var done, good int32
+	var what atomic.Value
+	sn := &sniffConn{Conn: raw}
+	var tc *tls.Conn
+	go func() {
+		defer atomic.StoreInt32(&done, 1)
+		br := bufio.NewReaderSize(raw, 256)
+		h, err := tunx.ReadHead(br)
+		if err != nil || h.Status() != 200 || br.Buffered() != 0 {
+			what.Store(fmt.Sprintf("CONNECT answered %v / %v", h, err))
+			return
+		}
+		// TLS 1.2 at most: its alerts are visible as records of type 21
+		tc = tls.Client(sn, &tls.Config{InsecureSkipVerify: true, ServerName: "origin.c07.example", MaxVersion: tls.VersionTLS12})
+		if err := tc.Handshake(); err != nil {
+			what.Store("TLS handshake with the proxy: " + err.Error())
+			return
+		}
+		atomic.StoreInt32(&good, 1)
+	}()
+	if !w.setup("MITM tunnel established", func() bool { return atomic.LoadInt32(&done) == 1 }) {
+		return false
+	}
+	if atomic.LoadInt32(&good) != 1 {
+		w.r.SetCase(w.c)
+		w.r.Inconclusive("setup: MITM tunnel: "+fmt.Sprint(what.Load()), w.state())
+		return false
+	}
+	c.sniff = sn
+	c.conn = tc
+	return true
 }
 
 // stallBody delivers data[:cut], then waits for gate (id, ptWriting), then
@@ -524,7 +648,8 @@ type cconn struct {
 	extra        int64
 	more         []*respObs // responses after the first (guarded by world.mu)
 	attr         attr
-	rest         []byte // slow body: the part sent at release time
+	rest         []byte     // slow body: the part sent at release time
+	sniff        *sniffConn // MITM: the record-type sniffer under the client's TLS connection
 	raw          int64
 	term         int32 // 1 EOF, 2 error
 	rerr         atomic.Value
@@ -725,7 +850,7 @@ func request(id int) string {
 }
 
 func newWorld(r *vh.Run, c ccase, budget *tunx.Budget, tcp bool) (*world, error) {
-	w := &world{r: r, c: c, budget: budget, exchs: map[int]*exch{}, gates: map[[2]int]chan struct{}{}, bodyLen: map[int]int{}, reqBody: map[int]int{}, rtFail: map[int]bool{}, stall: map[int]bool{}, bodyErr: map[int]string{}, serveDone: make(chan struct{})}
+	w := &world{r: r, c: c, budget: budget, exchs: map[int]*exch{}, gates: map[[2]int]chan struct{}{}, bodyLen: map[int]int{}, reqBody: map[int]int{}, rtFail: map[int]bool{}, stall: map[int]bool{}, noLen: map[int]bool{}, bodyErr: map[int]string{}, serveDone: make(chan struct{})}
 	p := martian.NewProxy()
 	p.SetTimeout(proxyTimeout)
 	if c.TimeoutMS > 0 {
@@ -955,6 +1080,16 @@ func (w *world) checkOne(c *cconn, id, k int, cls string) {
 		hh := tunx.Head{Line: ro.Line}
 		line, status, marked, complete, bad, got = ro.Line, hh.Status(), ro.Close, ro.Complete, ro.Bad, int64(ro.Body)
 	}
+	if complete && k == 0 && c.sniff != nil && len(hdrs) > 0 {
+		h := c.head.Load().(*tunx.Head)
+		if len(h.Get("Content-Length")) == 0 && !h.HasToken("Transfer-Encoding", "chunked") {
+			if typ, torn := c.sniff.lastRecord(); typ != 21 || torn {
+				w.r.ViolationCase(w.c, "C07:response-incomplete:"+cls, fmt.Sprintf("exchange %d inside a TLS (MITM'd) tunnel: the response has no length, its end is the end of the connection, but the TLS stream ended without a close_notify alert (last record type %d, torn=%v): the client cannot tell it from a truncated response (RFC 9112 9.8)", id, typ, torn), w.state())
+				return
+			}
+			w.r.Count("close_delimited_tls_responses_ended_by_close_notify", 1)
+		}
+	}
 	if !complete {
 		w.r.ViolationCase(w.c, "C07:response-incomplete:"+cls, fmt.Sprintf("exchange %d on connection %d had entered the request modifier but its client got status line %q and %d of %d body bytes before the connection ended",
 			id, c.id, line, got, n), w.state())
@@ -1045,7 +1180,30 @@ func (w *world) teardown() {
 			c.conn.Close()
 		}
 	}
-	vh.Await(func() bool { return w.returned() && len(vh.MartianGoroutines()) == 0 }, vh.AwaitOpts{Activity: w.activity})
+	res := w.budget.Await("C07:handlers-remain-after-close", func() bool { return w.returned() && len(vh.MartianGoroutines()) == 0 }, w.activity)
+	if res.Outcome != vh.Happened {
+		// every harness connection and the listener are closed and the system is
+		// quiescent, yet Close has not returned or martian goroutines are left:
+		// they would blur the census of every later case in this process
+		wit := w.state()
+		wit["quiescent_goroutines"] = tunx.WitnessLines(res.Witness)
+		w.r.ViolationCase(w.c, "C07:handlers-remain-after-close", "after the case, with all connections and the listener closed, Close has not returned or martian goroutines remain at quiescence", wit)
+		atomic.StoreInt32(&polluted, 1)
+	}
+}
+
+// polluted is set when a case left martian goroutines behind that can never
+// finish (reported as a violation): the rest of the batch is not run in this
+// process, the census would be meaningless and every wait would end stuck.
+var polluted int32
+
+func batchPolluted(r *vh.Run, left int) bool {
+	if atomic.LoadInt32(&polluted) == 0 {
+		return false
+	}
+	fmt.Printf("ABORT the previous case left martian goroutines behind; %d cases of this batch are not run\n", left)
+	r.Count("cases_not_run_after_a_goroutine_leak", int64(left))
+	return true
 }
 
 // ---------------------------------------------------------------------------
@@ -1126,6 +1284,15 @@ func (w *world) park1(c *cconn) bool {
 		c.conn.Write([]byte(rq[:k]))
 		return w.setup("mid-head: proxy consumed the partial head and reads on", func() bool { return c.sv.Unread() == 0 && c.sv.ReadCalls() >= 2 })
 	}
+	if c.attr.MITM {
+		if !w.openTunnel(c) {
+			return false
+		}
+		if c.attr.Second && !w.preExchange(c, 200+id, nil) {
+			return false
+		}
+		w.r.Count("exchanges_inside_mitm_tunnels", 1)
+	}
 	w.sendRequest(c, c.point <= ptRoundTrip)
 	if c.point != ptWriting || c.attr.Stall {
 		go c.read(w.bodyLen[id])
@@ -1203,7 +1370,17 @@ func runGates(r *vh.Run, c ccase, budget *tunx.Budget) {
 			w.reqBody[i] = 3000 + rng.Intn(20000)
 		}
 		w.rtFail[i] = a.RTFail
+		w.noLen[i] = a.NoLen
 		w.bodyLen[300+i] = rng.Intn(3000)
+		if a.MITM {
+			cfg, err := mitmConfig()
+			if err != nil {
+				r.SetCase(c)
+				r.Inconclusive("setup: mitm config: "+err.Error(), nil)
+				return
+			}
+			w.p.SetMITM(cfg)
+		}
 	}
 	w.bodyLen[100], w.bodyLen[101] = 10, 10
 	for i := range c.Points {
@@ -1421,6 +1598,15 @@ func sanitize(a attr, pt int) attr {
 	if a.Body != "" {
 		a.Pipe = false
 	}
+	if a.MITM && pt == ptWriting {
+		a.MITM, a.Second = false, false
+	}
+	if !a.MITM {
+		a.Second = false
+	}
+	if a.RTFail || pt == ptWriting {
+		a.NoLen = false
+	}
 	if a.RTFail {
 		a.Small = false
 	}
@@ -1478,6 +1664,13 @@ func allGateCases(r *vh.Run, thorough bool) []ccase {
 		}
 		cs = append(cs, ccase{Kind: "gates", Points: []int{ptMidHead, p1}, Order: o, Attrs: []attr{{Pipe: true}, {}}})
 	}
+	// exchanges inside MITM'd CONNECT tunnels (first and second of the tunnel), with and
+	// without a response length
+	for pt := ptReqMod; pt <= ptResMod; pt++ {
+		for _, a := range []attr{{MITM: true}, {MITM: true, NoLen: true}, {MITM: true, Second: true}, {MITM: true, Second: true, NoLen: true}, {NoLen: true}} {
+			cs = append(cs, ccase{Kind: "gates", Points: []int{pt}, Order: []int{0}, Attrs: []attr{a}})
+		}
+	}
 	// the proxy's own http.Transport with cold upstream connections to a harness origin
 	for pt := ptReqMod; pt <= ptWriting; pt++ {
 		for _, a := range []attr{{}, {Body: "large"}, {Body: "slow"}, {RTFail: true}, {Pipe: true}, {Stall: true, Small: true}} {
@@ -1496,6 +1689,13 @@ func allGateCases(r *vh.Run, thorough bool) []ccase {
 	// slow-close variants: every tuple for 1-2 connections, every 8th for 3
 	n := len(cs)
 	for i := 0; i < n; i++ {
+		closeDelimited := false
+		for _, a := range cs[i].Attrs {
+			closeDelimited = closeDelimited || a.NoLen
+		}
+		if closeDelimited {
+			continue // the end of such a response IS the close the variant holds back
+		}
 		if len(cs[i].Points) <= 2 || i%8 == 0 {
 			v := cs[i]
 			v.SlowClose = true
@@ -1824,11 +2024,17 @@ func run(r *vh.Run, batch string) {
 			if kind == "gatesrace" && !r.Thorough() && len(c.Points) > 2 {
 				continue
 			}
+			if batchPolluted(r, (len(cs)-i)/of) {
+				break
+			}
 			r.Case(c)
 			runGates(r, c, budget)
 		}
 	case "hook", "hookrace":
-		for _, c := range hookCases() {
+		for i, c := range hookCases() {
+			if batchPolluted(r, len(hookCases())-i) {
+				break
+			}
 			r.Case(c)
 			runHook(r, c, budget)
 		}
@@ -1837,6 +2043,9 @@ func run(r *vh.Run, batch string) {
 		per := total / of
 		for j := 0; j < per; j++ {
 			g := k*per + j
+			if batchPolluted(r, per-j) {
+				break
+			}
 			c := ccase{Kind: "race", Stream: "c07-race", Idx: g, Transport: []string{"pipe", "pipe", "pipe", "tcp"}[g%4]}
 			r.Case(c)
 			runRace(r, c, budget)
